@@ -12,10 +12,16 @@ from harness import check, judge, replay
 
 LENSES = {
     "quick": [("core_pointwise", 6000), ("core_reduce", 6000), ("core_index", None), ("core_stackcat", 5000),
-              ("subs_tensor", 3000), ("binder_names", 6000)],
+              ("subs_tensor", 3000), ("binder_names", 6000), ("mixed_contraction", 6000), ("semiring_logaddexp", 2500),
+              ("semiring_orand", 2000), ("gauss_pointwise", 2000), ("delta_ops", 3000)],
     "thorough": [("core_pointwise", None), ("core_reduce", None), ("core_index", None), ("core_stackcat", None),
-                 ("subs_tensor", None), ("binder_names", 40000)],
+                 ("subs_tensor", None), ("binder_names", 40000), ("mixed_contraction", None), ("semiring_addmul", 30000),
+                 ("semiring_logaddexp", 30000), ("semiring_maxadd", 20000), ("semiring_orand", 20000),
+                 ("gauss_pointwise", None), ("delta_ops", 40000)],
 }
+
+
+from harness.modes_carrier import reduces_absent_var  # noqa: E402
 
 
 def in_carrier(e):
@@ -77,8 +83,19 @@ def run(tier):
     n_all = len(uniq)
     uniq = [e for e in uniq if in_carrier(e)]
     out_of_carrier = n_all - len(uniq)
+    def nonunit_delta(t):
+        if isinstance(t, dict):
+            if t.get("c") == "Delta" and any(ld != {"c": "Num", "v": ["R", 0, 1], "dt": 0} for _, _, ld in t["terms"]):
+                return True
+            return any(nonunit_delta(x) for x in t.values())
+        if isinstance(t, list):
+            return any(nonunit_delta(x) for x in t)
+        return False
+
     jr, n_ok, n_bad, n_undef = judge_events(
-        out, uniq, "C02", lambda e: "%s|%s" % (e["rule"], replay.term_sig(e["lhs"], 1)))
+        out, uniq, "C02", lambda e: "%s|%s%s" % (e["rule"], replay.term_sig(e["lhs"], 1),
+                                                 "|nonunit_delta" if nonunit_delta(e["lhs"]) else "")
+                          + ("|reduces_absent_var" if reduces_absent_var(e["lhs"]) else ""))
     rules = Counter(e["rule"] for e in uniq)
     out.coverage = {
         "states": rp.states + jr.states,
